@@ -456,6 +456,12 @@ func (m *M) expected(inst *Inst, raw *model.RawHeader) (allowed map[Verdict]bool
 		// instance may treat it as a header it sees for the first time
 		dontCare = true
 	}
+	if n != nil && inst.forgot[n] {
+		// dropped by a Load according to the model's lower bound; the instance may still hold it
+		// (already known: success, no change) or treat it as a header it sees for the first time
+		allowed[VOK] = true
+		dontCare = true
+	}
 	applicable := 0
 	if inst.invalid[raw.Hash()] {
 		allowed[VInvalid] = true
